@@ -51,20 +51,44 @@ def run(ctx):
     workers = ctx.pick(4, 8)
     notes = []
 
-    res = _par({
-        "build": lambda: goharness.overlay_test_build(ctx, PKG, OVERLAY),
-        "mc": lambda: tlc.run(ctx, "ApiAccessTable", "ApiAccess_mc%s.cfg" % sfx, workers=workers, coverage=True,
-                              env={"VERIF_OUT": table}, timeout=ctx.pick(900, 2400), heap=ctx.pick("6g", "12g"), name="mc_access"),
-        "codec": lambda: tlc.run(ctx, "ApiAccessCodecTable", "ApiAccessCodec_mc%s.cfg" % sfx, workers=2, coverage=True,
-                                 env={"VERIF_OUT": codec}, timeout=ctx.pick(900, 2400), name="mc_codec"),
-    })
-    tb, mc, mcc = res["build"], res["mc"], res["codec"]
+    # Dev knob for mutation runs only (the TLC side does not depend on the tree under test): reuse exported tables.
+    cache = os.environ.get("VERIF_C26_CACHE")
+    cached = cache and all(os.path.exists(os.path.join(cache, "%s_%s" % (ctx.tier, n))) for n in ("table.json", "codec.json", "stats.json"))
+    jobs = {"build": lambda: goharness.overlay_test_build(ctx, PKG, OVERLAY)}
+    if not cached:
+        jobs["mc"] = lambda: tlc.run(ctx, "ApiAccessTable", "ApiAccess_mc%s.cfg" % sfx, workers=workers, coverage=True,
+                                     env={"VERIF_OUT": table}, timeout=ctx.pick(900, 2400), heap=ctx.pick("6g", "12g"), name="mc_access")
+        jobs["codec"] = lambda: tlc.run(ctx, "ApiAccessCodecTable", "ApiAccessCodec_mc%s.cfg" % sfx, workers=2, coverage=True,
+                                        env={"VERIF_OUT": codec}, timeout=ctx.pick(900, 2400), name="mc_codec")
+    res = _par(jobs)
+    tb = res["build"]
+    if cached:
+        import shutil
+        import types
+        shutil.copy(os.path.join(cache, "%s_table.json" % ctx.tier), table)
+        shutil.copy(os.path.join(cache, "%s_codec.json" % ctx.tier), codec)
+        with open(os.path.join(cache, "%s_stats.json" % ctx.tier)) as f:
+            stj = json.load(f)
+        mc = types.SimpleNamespace(ok=True, coverage={k: tuple(v) for k, v in stj["mc"]["coverage"].items()}, **{k: stj["mc"][k] for k in ("distinct", "generated", "wall")})
+        mcc = types.SimpleNamespace(ok=True, coverage={k: tuple(v) for k, v in stj["mcc"]["coverage"].items()}, **{k: stj["mcc"][k] for k in ("distinct", "generated", "wall")})
+        notes.append("TLC results reused from VERIF_C26_CACHE (development/mutation run)")
+    else:
+        mc, mcc = res["mc"], res["codec"]
     for r, what in ((mc, "ApiAccess"), (mcc, "ApiAccessCodec")):
         if not r.ok:
             # the spec itself contradicts the statement: a spec/design problem, not a verdict about the code
             raise InfraError("spec-level counterexample in %s: %s %s" % (what, r.summary(), r.trace[-1:] if r.trace else ""))
-    tlc.require_coverage(mc, ["Init", "Serve"])
-    tlc.require_coverage(mcc, ["Init", "DoAttach"])
+    if not cached:
+        tlc.require_coverage(mc, ["Init", "Serve"])
+        tlc.require_coverage(mcc, ["Init", "DoAttach"])
+        if cache and os.path.exists(table) and os.path.exists(codec):
+            import shutil
+            os.makedirs(cache, exist_ok=True)
+            shutil.copy(table, os.path.join(cache, "%s_table.json" % ctx.tier))
+            shutil.copy(codec, os.path.join(cache, "%s_codec.json" % ctx.tier))
+            with open(os.path.join(cache, "%s_stats.json" % ctx.tier), "w") as f:
+                json.dump({"mc": {"distinct": mc.distinct, "generated": mc.generated, "wall": mc.wall, "coverage": mc.coverage},
+                           "mcc": {"distinct": mcc.distinct, "generated": mcc.generated, "wall": mcc.wall, "coverage": mcc.coverage}}, f)
     for p in (table, codec):
         if not os.path.exists(p):
             raise InfraError("table export missing: %s" % p)
@@ -97,15 +121,6 @@ def run(ctx):
     if summ["unmodelled"]:
         raise InfraError("endpoints whose declared access checker is outside the model: %s" % json.dumps(summ["unmodelled"]))
     eps = summ["endpoints"]
-    if len(eps) < 20:
-        raise InfraError("vacuity: only %d endpoint x method pairs found in the real api table" % len(eps))
-    for want in ("served", "forbidden", "unauthorized", "cancelled", "error500"):
-        if not summ["counts"].get(want):
-            raise InfraError("vacuity: no real request ended as %s" % want)
-    kinds = sorted(set(e["class"]["kind"] for e in eps))
-    for k in kinds:
-        if not summ["per_class"].get(k + ":served") or not summ["per_class"].get(k + ":forbidden"):
-            raise InfraError("vacuity: class %s never both served and refused" % k)
 
     violations, seen = [], set()
     for v in [r for r in recs if r["k"] == "violation"]:
@@ -129,6 +144,18 @@ def run(ctx):
                     m["what"], m["input"], m["got"], m["want"]), replay=m))
         else:
             codec_drift.append(m)
+
+    if not violations:      # vacuity guards only when there is nothing to report
+        if len(eps) < 20:
+            raise InfraError("vacuity: only %d endpoint x method pairs found in the real api table" % len(eps))
+        for want in ("served", "forbidden", "unauthorized", "cancelled", "error500"):
+            if not summ["counts"].get(want):
+                raise InfraError("vacuity: no real request ended as %s" % want)
+        kinds = sorted(set(e["class"]["kind"] for e in eps))
+        for k in kinds:
+            if not summ["per_class"].get(k + ":served") or not summ["per_class"].get(k + ":forbidden"):
+                raise InfraError("vacuity: class %s never both served and refused" % k)
+
 
     drift_n = summ["drift"] + len(codec_drift)
     drifts = [r for r in recs if r["k"] == "drift"] + codec_drift
@@ -163,7 +190,7 @@ def run(ctx):
                         tv["stuck_line"], ev["out"], key))
                 else:
                     notes.append("observation trace rejected at line %d: %s" % (tv["stuck_line"], key))
-    if n_obs < 100:
+    if n_obs < 100 and not violations:
         raise InfraError("vacuity: only %d observations recorded for trace validation" % n_obs)
 
     samples = [{"endpoint": "%s %s" % (r["method"], r["path"]), "declared": r["class"], "remote_addr": r["remote_addr"],
